@@ -234,7 +234,52 @@ def run(tier):
                         constructed=constructed))
     f2, n2 = empty_inner(codecs)
     f3, n3 = late_registration(codecs)
-    return fails + f2 + f3, n + n2 + n3
+    f4, n4 = marker_as_inner_value()
+    return fails + f2 + f3 + f4, n + n2 + n3 + n4
+
+
+def marker_as_inner_value():
+    """captured octets `00 00` are no inner value: with resolution on, the decoder refuses them or leaves the field as captured
+    -- it never hands out the end-of-octets object as (part of) a decoded value"""
+    from pyasn1.type import univ, namedtype, opentype, tag, base
+    from pyasn1.codec.ber import decoder as bd, eoo
+    from pyasn1 import error
+    fails, n = [], 0
+    t0 = tag.Tag(tag.tagClassContext, tag.tagFormatSimple, 0)
+    tmap = {1: univ.Integer(), 2: univ.OctetString()}
+    any0 = univ.Any().subtype(implicitTag=t0)
+    coll = univ.Sequence(componentType=namedtype.NamedTypes(
+        namedtype.NamedType('id', univ.Integer()),
+        namedtype.NamedType('blob', univ.SetOf(componentType=any0), openType=opentype.OpenType('id', tmap))))
+    single = univ.Sequence(componentType=namedtype.NamedTypes(
+        namedtype.NamedType('id', univ.Integer()), namedtype.NamedType('blob', any0, openType=opentype.OpenType('id', tmap))))
+
+    def holds_marker(o):
+        if o is eoo.endOfOctets or o.__class__ is eoo.EndOfOctets:
+            return True
+        if isinstance(o, (univ.SequenceOf, univ.SetOf)):
+            return any(holds_marker(x) for x in o)
+        if isinstance(o, (univ.Sequence, univ.Set)):
+            return any(holds_marker(c) for c in o.values() if c is not None and c.isValue)
+        return False
+    for spec, hexes in ((coll, ('3080 020101 3104 80020000 0000', '3009 020101 3104 80020000', '3080 020101 3180 80020000 0000 0000',
+                                '3080 020101 3108 80020000 80020105 0000')),
+                        (single, ('3080 020101 80020000 0000', '3007 020101 80020000'))):
+        for h in hexes:
+            n += 1
+            b = bytes.fromhex(h.replace(' ', ''))
+            try:
+                r, rest = bd.decode(b, asn1Spec=spec, decodeOpenTypes=True)
+            except error.PyAsn1Error:
+                continue
+            except Exception as ex:
+                fails.append(rec('captured octets 00 00 under an open type: %s: %s' % (type(ex).__name__, str(ex)[:80]),
+                                 codec='BER', tagging='implicit', container='set-of' if spec is coll else 'single', constructed=False))
+                continue
+            if holds_marker(r):
+                fails.append(rec('the decoded value of %s holds the end-of-octets object' % h, codec='BER', tagging='implicit',
+                                 container='set-of' if spec is coll else 'single', constructed=False))
+    return fails, n
 
 
 def late_registration(codecs):
